@@ -79,6 +79,22 @@ CHECKS.update({
                  "decided under C17."),
 })
 
+CHECKS.update({
+    'C05': dict(text=("Model-based: Format.tla gives pack / unpack / readlist / token-string construction a meaning on the flat "
+                      "token list (value consumption, stretchy-token rule, CreationError cases). One TLC run both model-checks "
+                      "the C05 theorems (length = sum, unpack inverts pack, every split composes, wrong counts / sizes refused) on "
+                      "every token list up to K tokens over a 14-kind menu and writes the rows, which are replayed through the "
+                      "library in several spellings (list form, multipliers, brackets, keyword lengths, whitespace); seeded "
+                      "random formats over 24 token kinds are judged event by event."),
+                design='DESIGN.md section 9 (C05)', technique='TLA+ format spec + TLC theorems and enumeration in one run + replay + TLC trace validation'),
+    'C18': dict(text=("Model-based: StructToks in Format.tla lays out struct codes per prefix (standard sizes; native sizes and "
+                      "alignment for '@' from platform constants checked at start-up); TLC model-checks layout/alignment/"
+                      "byte-reversal/round-trip theorems on every prefix x code sequence x limit value and the rows are replayed "
+                      "through pack/unpack/.bytes; le/be/ne relations and byteswap on random whole-byte contents are validated "
+                      "through Codec/BitSeq semantics. The '@' deviation from struct.pack is a listed known finding."),
+                design='DESIGN.md section 9 (C18)', technique='TLA+ struct layout spec + TLC theorems and enumeration + replay + TLC trace validation'),
+})
+
 NOT_YET = {
 }
 
